@@ -575,8 +575,9 @@ int mp_kronecker(const integer_class &a, const integer_class &n)
     (a | n) == (a | u) * (a | m) 				if n is odd
     */
 
+    // (a | 0) is 1 for a = +-1 and 0 otherwise (same as mpz_kronecker)
     if (n == 0) {
-        throw std::runtime_error("second arg of Kronecker cannot be zero");
+        return (a == 1 || a == -1) ? 1 : 0;
     }
 
     // Compute (a | u)
